@@ -282,7 +282,8 @@ class TypeInfoVisitor(DispatchingVisitor):
     @property
     def parent_input_type(self) -> Optional[InputObjectType]:
         t = _peek(self._input_type_stack, 2)
-        return t if isinstance(t, InputObjectType) else None
+        named = unwrap_type(t) if t is not None else None
+        return named if isinstance(named, InputObjectType) else None
 
     @property
     def field(self) -> Optional[Field]:
